@@ -21,6 +21,7 @@ type C14Plan struct {
 	Branches int       `json:"branches"` // staged branches 1..4
 	Existing []bool    `json:"existing"` // per branch: does it exist before the transaction
 	Op       string    `json:"op"`       // commit | discard
+	Between  bool      `json:"between,omitempty"` // an ordinary commit lands on an already-moved branch between the interrupted run and the re-run
 	Mode     string    `json:"mode"`     // crash | error | sequence
 	UUIDSeed uint64    `json:"uuid_seed"`
 }
@@ -36,6 +37,7 @@ func init() {
 			for i := 0; i < p.Branches; i++ {
 				p.Existing = append(p.Existing, r.Chance(0.6))
 			}
+			p.Between = p.Op == "commit" && p.Branches >= 2 && r.Chance(0.3)
 			return p
 		},
 		Exec: execC14,
@@ -303,6 +305,29 @@ func execC14(t *testing.T, raw json.RawMessage, res *Result) {
 			alreadyDone = true
 		}
 		n.Restore(st)
+		// somebody commits to a branch the interrupted run had already moved, then the transaction is re-run
+		betweenBranch, betweenHead := "", []byte(nil)
+		if p.Between && p.Op == "commit" && !alreadyDone {
+			for _, b := range names {
+				if v[b].Commits == 1 && v[b].TxLogs == 1 {
+					betweenBranch = b
+					break
+				}
+			}
+			if betweenBranch != "" {
+				_, _, nr := ApplyEdits(cols, pk, rows, []Edit{{Op: "addrow", Cells: txRow(cols, pk, 77)}})
+				f := n.WriteFile("between.csv", CSVText(cols, nr, ','))
+				br := run("commit", betweenBranch, f, "work after the interrupted transaction", "-p", pkArg)
+				if br.Failed() {
+					res.Invalid("%s: commit between the runs failed: %v %s", when, br.Err, br.Stdout)
+					return false
+				}
+				rb, _ := n.Refs()
+				betweenHead = rb["heads/"+betweenBranch]
+				res.probe("commit_between_interrupted_run_and_rerun", 1)
+				when += fmt.Sprintf(", then an ordinary commit on %s", betweenBranch)
+			}
+		}
 		rr := run(opArgs...)
 		if rr.Out.PanicVal != nil || rr.Out.Deadlock {
 			res.Violate("rerun-panic", "%s: re-run panicked: %v", when, rr.Out.PanicVal)
@@ -313,6 +338,20 @@ func execC14(t *testing.T, raw json.RawMessage, res *Result) {
 		if err != nil {
 			res.Violate("refdb-unreadable", "%s after re-run: %v", when, err)
 			return false
+		}
+		if betweenBranch != "" {
+			x := v2[betweenBranch]
+			if !bytes.Equal(x.Head, betweenHead) {
+				res.Violate("rerun-recommitted-moved-branch", "%s, then re-run: branch %s had already received the transaction's commit (and a later ordinary commit); the re-run moved it again from %x to %x", when, betweenBranch, betweenHead, x.Head)
+				return false
+			}
+			if x.Commits != 2 || x.TxLogs != 1 {
+				res.Violate("rerun-recommitted-moved-branch", "%s, then re-run: branch %s is %d commits ahead of its old head (want 2: the transaction's commit and the later one) with %d reflog entries of the transaction (want 1)", when, betweenBranch, x.Commits, x.TxLogs)
+				return false
+			}
+			// judged: the rest of the transaction must still complete
+			x.Commits, x.Table, x.TxLogs = 1, stagedTables[betweenBranch], 1
+			v2[betweenBranch] = x
 		}
 		if p.Op == "commit" {
 			if alreadyDone {
